@@ -437,6 +437,19 @@ class PL2Scorer(WeightLengthScorer):
         return pl2(weight, self.cf, self.qf, self.dc, length, self.avgfl,
                    self.c)
 
+    # The PL2 formula is not monotone in the term weight and the field length,
+    # so _score(max weight, min length) does not bound the scores of a block
+    # or of the whole posting list
+
+    def supports_block_quality(self):
+        return False
+
+    def max_quality(self):
+        return float("inf")
+
+    def block_quality(self, matcher):
+        return float("inf")
+
 
 # Simple models
 
